@@ -229,6 +229,8 @@ class IsValid(Contract):
         return dict(self=ex.models.sym_entity(st, "StructuredRecord", "self", record=rec))
 
     def requires(self, ex, st, a):
+        if st.get(a["self"], "candidate") is not None:
+            return []
         return entity_requires(ex, st, a["self"])
 
     def raises(self, ex, st, a):
@@ -238,6 +240,11 @@ class IsValid(Contract):
         return cache_cover_hint(ex, st, st.get(a["self"], "record"))
 
     def ensures(self, ex, pre, st, a, result):
+        cand = pre.get(a["self"], "candidate")
+        if cand is not None:
+            # abstract view (characterize): the verdict of a candidate class on a record is accepts(class, record)
+            rec = pre.get(pre.get(a["self"], "record"), "ident")
+            return [("verdict-is-accepts", tm.eq(result.t, tm.app("accepts", BOOL, cand.t, rec.t)))]
         text, n, doubled, pat, linear = match_terms(ex, pre, a["self"])
         bm = BaseMatch()
         return [("true-iff-some-start-matches", tm.eq(result.t, tm.not_(bm._no_match(ex, pre, a, n))))] + [
@@ -245,7 +252,8 @@ class IsValid(Contract):
 
     def result(self, ex, st, a):
         st = st.fork()
-        ex.models.init_cache(st, prefix="cache!%d" % next(tm._fresh))
+        if st.get(a["self"], "candidate") is None:
+            ex.models.init_cache(st, prefix="cache!%d" % next(tm._fresh))
         return [(st, VT(tm.fresh("valid", BOOL)))]
 
 
